@@ -131,6 +131,47 @@ fn variants(deep: bool) -> Vec<Variant> {
                 });
             }
         }
+        // an OSCAT description block (blanked before lexing) at one gap; and with a further end marker or an empty
+        // block at a later gap: only the text inside a block is description, the code after it is highlighted
+        {
+            let block = " (*@KEY@:DESCRIPTION*) any \u{e9} text\n more (*@KEY@:END_DESCRIPTION*) ";
+            for (gi, &i) in gaps.iter().enumerate() {
+                let later: Vec<Option<(usize, &str, &str)>> = {
+                    let mut l: Vec<Option<(usize, &str, &str)>> = vec![None];
+                    for &j in [gaps.get(gi + 1), gaps.last()].iter().flatten() {
+                        if *j > i {
+                            l.push(Some((*j, "stray-end-marker", " (*@KEY@:END_DESCRIPTION*) ")));
+                            l.push(Some((*j, "empty-block", " (*@KEY@:DESCRIPTION*) (*@KEY@:END_DESCRIPTION*) ")));
+                        }
+                    }
+                    l
+                };
+                for second in later {
+                    let sp = spell_with(lx, "", "\n", &|j, g| {
+                        if j == i {
+                            block.to_string()
+                        } else if second.map(|x| x.0) == Some(j) {
+                            second.unwrap().2.to_string()
+                        } else {
+                            match g {
+                                Glue::Blank => " ".to_string(),
+                                _ => String::new(),
+                            }
+                        }
+                    });
+                    out.push(Variant {
+                        doc: d.name.into(),
+                        label: match second {
+                            None => "gap:oscat-block".to_string(),
+                            Some((j, n, _)) => format!("gap:oscat-block+{}{}", n, if gaps.get(gi + 1) == Some(&j) { "-at-the-next-gap" } else { "-at-the-last-gap" }),
+                        },
+                        site: format!("{:?}·{:?}", lx[i].class, lx[i + 1].class),
+                        spelled: sp,
+                        valid: true,
+                    });
+                }
+            }
+        }
         // long lines and many lines (the relative encoding and the line / column counters have a width)
         if d.name == corpus::docs()[0].name {
             for len in [250usize, 255, 256, 257, 65534, 65535, 65536, 65537, 70000] {
